@@ -538,6 +538,8 @@ def Linked (s : State K) (c : Nat) : Prop :=
       lens[k]? = some om.view.len ∧
       om.view = ⟨oc.view.buf, oc.view.off + (lens.take k).sum, om.view.len⟩
 
+variable [DCast K]
+
 theorem eff_linkColl {s s' : State K} (hwf : WF s) {ms : List Nat} (hnd : ms.Nodup) {g : Nat}
     {src : Option (View × DType)} {dt : Option DType} (h : linkFrom s ms g src dt = .ok s') :
     Eff s s' (fun _ _ => False) (fun i => i ∈ ms) False ∧
@@ -562,9 +564,9 @@ theorem eff_linkColl {s s' : State K} (hwf : WF s) {ms : List Nat} (hnd : ms.Nod
   · cases h
   rename_i hnest
   -- abbreviations
-  generalize hcells : collCells s os src = cells at h
-  generalize hdt : collDType s os src dt = dtOut at h
   simp only at h
+  generalize hdt : collDType s os src dt = dtOut at h
+  generalize hcells : collCells s os src dtOut = cells at h
   split at h
   · cases h
   rename_i hF5
@@ -756,7 +758,8 @@ theorem eff_mapEach_link {s s' : State K} (hwf : WF s)
 
 theorem eff_mkColl {s s' : State K} (hwf : WF s) {hs : List Nat} {cp : Bool} {dt : Option DType}
     (h : mkColl s hs cp dt = .ok s') :
-    Eff s s' (fun _ _ => False) (fun i => cp = false ∧ i ∈ hs) False ∧ ResultOK s s' := by
+    Eff s s' (fun _ _ => False) (fun i => cp = false ∧ hs.Nodup ∧ i ∈ hs) False ∧
+      ResultOK s s' := by
   unfold mkColl at h
   split at h
   · cases h
@@ -779,7 +782,7 @@ theorem eff_mkColl {s s' : State K} (hwf : WF s) {hs : List Nat} {cp : Bool} {dt
           Bool.not_eq_true, Decidable.not_not] at hcp
         exact hcp
       obtain ⟨e2, l2, lk, _⟩ := eff_linkColl hwf hcp'.2 h
-      refine ⟨e2.mono (fun _ _ _ f => f) (fun i _ hm => ⟨hcp'.1, hm⟩) id, by omega, ?_⟩
+      refine ⟨e2.mono (fun _ _ _ f => f) (fun i _ hm => ⟨hcp'.1, hcp'.2, hm⟩) id, by omega, ?_⟩
       intro oc' _ _
       have : lastId s' = s.objs.length := by unfold lastId; omega
       rw [this]; exact lk
@@ -787,16 +790,16 @@ theorem eff_mkColl {s s' : State K} (hwf : WF s) {hs : List Nat} {cp : Bool} {dt
 theorem eff_copyAny {s s' : State K} (hwf : WF s) {o : Obj} {dt : Option DType}
     (h : copyAny s o dt = .ok s') :
     Eff s s' (fun _ _ => False) (fun _ => False) False ∧ ResultOK s s' ∧
-      (o.cls ≠ .coll → ∃ d, s' = copyField s o d) := by
+      (o.cls ≠ .coll → s' = copyField s o dt) := by
   unfold copyAny at h
-  have field : ∀ d, s' = copyField s o d → o.cls ≠ .coll →
+  have field : s' = copyField s o dt → o.cls ≠ .coll →
       Eff s s' (fun _ _ => False) (fun _ => False) False ∧ ResultOK s s' ∧
-        (o.cls ≠ .coll → ∃ d, s' = copyField s o d) := by
-    intro d hs' hc
+        (o.cls ≠ .coll → s' = copyField s o dt) := by
+    intro hs' hc
     subst hs'
-    refine ⟨eff_allocObj hwf _ _ _, ⟨by simp [copyField, allocObj_length], ?_⟩, fun _ => ⟨d, rfl⟩⟩
+    refine ⟨eff_allocObj hwf _ _ _, ⟨by simp [copyField, allocObj_length], ?_⟩, fun _ => rfl⟩
     intro oc hoc hcls
-    have : lastId (copyField s o d) = s.objs.length := by
+    have : lastId (copyField s o dt) = s.objs.length := by
       simp [lastId, copyField, allocObj_length]
     rw [this, copyField, allocObj_new] at hoc
     cases hoc
@@ -810,7 +813,7 @@ theorem eff_copyAny {s s' : State K} (hwf : WF s) {o : Obj} {dt : Option DType}
       exact ⟨e, r, fun hc => absurd (by assumption) hc⟩
   · rename_i h1 h2
     cases h
-    exact field _ rfl (fun hc => h2 hc)
+    exact field rfl (fun hc => h2 hc)
 
 /-- writing through the (fresh) result of a construction does not touch old memory -/
 theorem eff_write_result {s s1 : State K} (hwf : WF s)
@@ -1040,17 +1043,51 @@ def foot (G : List Grid) (s : State K) : Op K → Nat → Nat → Prop
   | .setGhosts h _, b, i => ∃ o : Obj, s.objs[h]? = some o ∧ o.view.Mem b i ∧
       validSel G o (i - o.view.off) = false
   | .inplace _ a _, b, i => ∃ o : Obj, s.objs[a]? = some o ∧ o.validCell G b i
+  | .applyOperator h _ _ out _, b, i =>
+      (∃ o : Obj, s.objs[h]? = some o ∧ o.view.Mem b i ∧ validSel G o (i - o.view.off) = false) ∨
+      (∃ (j : Nat) (oj : Obj), out = some j ∧ s.objs[j]? = some oj ∧ oj.validCell G b i)
+  | .applyFn _ out _, b, i =>
+      ∃ (j : Nat) (oj : Obj), out = some j ∧ s.objs[j]? = some oj ∧ oj.validCell G b i
   | _, _, _ => False
 
-/-- objects existing before the operation that the operation may re-link (to a fresh buffer) -/
+/-- objects existing before the operation that the operation may re-link (to a fresh buffer):
+the fields handed to `FieldCollection(fields, copy_fields=False)` - unless some of them are
+identical, which forces a copy (collection.py:92-95) -/
 def moved : Op K → Nat → Prop
-  | .mkColl hs cp _, i => cp = false ∧ i ∈ hs
+  | .mkColl hs cp _, i => cp = false ∧ hs.Nodup ∧ i ∈ hs
   | _, _ => False
 
 /-- operations whose result may be a view of existing memory -/
 def subviewing : Op K → Prop
   | .component _ _ => True
+  | .tcomponent _ _ _ => True
   | _ => False
+
+theorem eff_componentAt {s s' : State K} (hwf : WF s) {h : Nat} {o : Obj}
+    (ho : s.objs[h]? = some o) {c : Nat} (hs : componentAt s o c = .ok s') :
+    Eff s s' (fun _ _ => False) (fun _ => False) True ∧ ResultOK s s' := by
+  unfold componentAt at hs
+  split at hs
+  · rename_i hcond
+    cases hs
+    simp only [Bool.and_eq_true, decide_eq_true_eq] at hcond
+    have hsub : (compObj o c).view.Sub o.view := by
+      refine ⟨rfl, by simp [compObj], ?_⟩
+      have h1 : (c + 1) * (o.view.len / o.ncomp) ≤ o.ncomp * (o.view.len / o.ncomp) :=
+        Nat.mul_le_mul_right _ hcond.2
+      have h2 : o.ncomp * (o.view.len / o.ncomp) ≤ o.view.len := Nat.mul_div_le _ _
+      have h3 : (c + 1) * (o.view.len / o.ncomp) =
+          c * (o.view.len / o.ncomp) + o.view.len / o.ncomp := Nat.succ_mul _ _
+      simp only [compObj]
+      omega
+    refine ⟨eff_pushObj hwf _ h o ho hsub, by simp [State.pushObj], ?_⟩
+    intro oc hoc hcls
+    have : lastId (s.pushObj (compObj o c)) = s.objs.length := by simp [lastId, State.pushObj]
+    rw [this] at hoc
+    simp [State.pushObj] at hoc
+    subst hoc
+    cases hcls
+  · cases hs
 
 theorem eff_copyThenWrite {G : List Grid} {s s' : State K} (hwf : WF s) {src : Obj}
     {dt : Option DType} {g : State K → Obj → Nat → Option K → Option K}
@@ -1076,6 +1113,21 @@ theorem ResultOK.of_field {s : State K} (cells : List (Option K)) (dt : DType) (
   cases hoc
   exact absurd hcls hc
 
+theorem eff_mkField {G : List Grid} {s s' : State K} (hwf : WF s) {cls : Cls} {g : Nat}
+    {dt : Option DType} {cplx : Bool} {init : Init K}
+    (h : mkField G s cls g dt cplx init = .ok s') :
+    Eff s s' (fun _ _ => False) (fun _ => False) False ∧ ResultOK s s' := by
+  simp only [mkField] at h
+  split at h
+  · cases h
+  split at h
+  · cases h
+  rename_i gr _ hcls
+  have hc : cls ≠ .coll := by
+    intro e; subst e; simp at hcls
+  split at h <;> cases h <;>
+    exact ⟨eff_allocObj hwf _ _ _, ResultOK.of_field _ _ _ hc⟩
+
 /-- nothing was created: the clause about the result is void -/
 def NoNew (s s' : State K) : Prop := s'.objs.length = s.objs.length
 
@@ -1085,17 +1137,9 @@ theorem step_spec (G : List Grid) {s s' : State K} (hwf : WF s) {op : Op K}
     Eff s s' (foot G s op) (moved op) (subviewing op) ∧ (NoNew s s' ∨ ResultOK s s') := by
   cases op with
   | mkField cls g dt cplx init =>
-    simp only [step, mkField] at h
-    split at h
-    · cases h
-    split at h
-    · cases h
-    rename_i gr _ hcls
-    have hc : cls ≠ .coll := by
-      intro e; subst e; simp at hcls
-    split at h <;> cases h <;>
-      exact ⟨(eff_allocObj hwf _ _ _).mono (fun _ _ _ f => f.elim) (fun _ _ f => f.elim)
-        (fun f => f.elim), Or.inr (ResultOK.of_field _ _ _ hc)⟩
+    simp only [step] at h
+    obtain ⟨e, r⟩ := eff_mkField hwf h
+    exact ⟨e.mono (fun _ _ _ f => f.elim) (fun _ _ f => f.elim) (fun f => f.elim), Or.inr r⟩
   | writeData hd vals =>
     simp only [step] at h
     split at h
@@ -1142,27 +1186,18 @@ theorem step_spec (G : List Grid) {s s' : State K} (hwf : WF s) {op : Op K}
     split at h
     · cases h
     rename_i o ho
+    obtain ⟨e, r⟩ := eff_componentAt hwf (getObj_ok ho) h
+    exact ⟨e.mono (fun _ _ _ f => f.elim) (fun _ _ f => f.elim) (fun _ => trivial), Or.inr r⟩
+  | tcomponent hd i j =>
+    simp only [step] at h
     split at h
-    · rename_i hcond
-      cases h
-      simp only [Bool.and_eq_true, decide_eq_true_eq] at hcond
-      have hsub : (compObj o c).view.Sub o.view := by
-        refine ⟨rfl, by simp [compObj], ?_⟩
-        have h1 : (c + 1) * (o.view.len / o.ncomp) ≤ o.ncomp * (o.view.len / o.ncomp) :=
-          Nat.mul_le_mul_right _ hcond.2
-        have h2 : o.ncomp * (o.view.len / o.ncomp) ≤ o.view.len := Nat.mul_div_le _ _
-        have h3 : (c + 1) * (o.view.len / o.ncomp) =
-            c * (o.view.len / o.ncomp) + o.view.len / o.ncomp := Nat.succ_mul _ _
-        simp only [compObj]
-        omega
-      refine ⟨(eff_pushObj hwf _ hd o (getObj_ok ho) hsub).mono (fun _ _ _ f => f.elim)
-        (fun _ _ f => f.elim) id, Or.inr ⟨by simp [State.pushObj], ?_⟩⟩
-      intro oc hoc hcls
-      have : lastId (s.pushObj (compObj o c)) = s.objs.length := by simp [lastId, State.pushObj]
-      rw [this] at hoc
-      simp [State.pushObj] at hoc
-      subst hoc
-      cases hcls
+    · cases h
+    rename_i o ho
+    split at h
+    · cases h
+    split at h
+    · obtain ⟨e, r⟩ := eff_componentAt hwf (getObj_ok ho) h
+      exact ⟨e.mono (fun _ _ _ f => f.elim) (fun _ _ f => f.elim) (fun _ => trivial), Or.inr r⟩
     · cases h
   | mkColl hs cp dt =>
     simp only [step] at h
@@ -1297,6 +1332,78 @@ theorem step_spec (G : List Grid) {s s' : State K} (hwf : WF s) {op : Op K}
       · cases h
       obtain ⟨e, r⟩ := eff_copyThenWrite hwf h
       exact ⟨e.mono (fun _ _ _ f => f.elim) (fun _ _ f => f.elim) (fun f => f.elim), Or.inr r⟩
+  | applyOperator hd ghosts outCls out vals =>
+    simp only [step] at h
+    split at h
+    · cases h
+    rename_i o ho
+    split at h
+    · cases h
+    -- the boundary condition: virtual points of the operand
+    have e1 := eff_writeSel hwf o.view (fun p => !validSel G o p) (fun p old =>
+      match ghosts[p]? with | some (some x) => some x | _ => old)
+    have hW1 : ∀ b i, (o.view.Mem b i ∧ (!validSel G o (i - o.view.off)) = true) →
+        foot G s (.applyOperator hd ghosts outCls out vals) b i := by
+      intro b i hw
+      exact Or.inl ⟨o, getObj_ok ho, hw.1, by simpa using hw.2⟩
+    split at h
+    · -- a new field holds the result
+      obtain ⟨e2, r2⟩ := eff_mkField e1.wf h
+      refine ⟨(Eff.trans hwf e1 e2).mono ?_ (fun _ _ f => f.elim id id) (fun f => f.elim id id),
+        Or.inr ⟨?_, ?_⟩⟩
+      · intro b i _ hw
+        rcases hw with hw | hw
+        · exact hW1 b i hw
+        · exact hw.elim
+      · have := r2.1; simpa [State.writeSel] using this
+      · exact r2.2
+    · rename_i j
+      split at h
+      · cases h
+      rename_i oj hoj
+      split at h
+      · cases h
+      split at h
+      · cases h
+      cases h
+      have e2 := eff_writeSel e1.wf oj.view (validSel G oj) (fun p old =>
+        match vals[p]? with | some x => some x | none => old)
+      refine ⟨(Eff.trans hwf e1 e2).mono ?_ (fun _ _ f => f.elim id id) (fun f => f.elim id id),
+        Or.inl rfl⟩
+      intro b i _ hw
+      rcases hw with hw | hw
+      · exact hW1 b i hw
+      · exact Or.inr ⟨j, oj, rfl, getObj_ok hoj, hw.1, hw.2⟩
+  | derive hd cls cplx vals =>
+    simp only [step] at h
+    split at h
+    · cases h
+    split at h
+    · cases h
+    obtain ⟨e, r⟩ := eff_mkField hwf h
+    exact ⟨e.mono (fun _ _ _ f => f.elim) (fun _ _ f => f.elim) (fun f => f.elim), Or.inr r⟩
+  | applyFn hd out vals =>
+    simp only [step] at h
+    split at h
+    · cases h
+    rename_i o ho
+    split at h
+    · cases h
+    split at h
+    · obtain ⟨e, r⟩ := eff_copyThenWrite hwf h
+      exact ⟨e.mono (fun _ _ _ f => f.elim) (fun _ _ f => f.elim) (fun f => f.elim), Or.inr r⟩
+    · rename_i j
+      split at h
+      · cases h
+      rename_i oj hoj
+      split at h
+      · cases h
+      split at h
+      · cases h
+      cases h
+      refine ⟨(eff_writeSel hwf _ _ _).mono ?_ (fun _ _ f => f.elim) id, Or.inl rfl⟩
+      intro b i _ hw
+      exact ⟨j, oj, rfl, getObj_ok hoj, hw.1, hw.2⟩
 
 theorem inplace_eq' {G : List Grid} {s s' : State K} {bop : BinOp} {a : Nat} {b : Operand K}
     (hs : step G s (.inplace bop a b) = .ok s') :
@@ -1400,7 +1507,8 @@ theorem newOK_copyAny {G : List Grid} {s s' : State K} (hi : Inv G s) {o : Obj} 
     refine newOK_allocObj s _ _ _ rfl ?_
     rcases hi.shaped m o ho with hr | ⟨g, h1, h2⟩
     · exact Or.inl hr
-    · exact Or.inr ⟨g, h1, by rw [Store.length_readView _ _ (hi.wf m o ho).2]; exact h2⟩
+    · exact Or.inr ⟨g, h1, by
+        rw [length_castCells, Store.length_readView _ _ (hi.wf m o ho).2]; exact h2⟩
 
 theorem newOK_copyThenWrite {G : List Grid} {s s' : State K} (hi : Inv G s) {src : Obj} {m : Nat}
     (ho : s.objs[m]? = some src) {dt : Option DType}
@@ -1433,19 +1541,40 @@ theorem binopSrc_mem {s : State K} {op : BinOp} {oa ob osrc : Obj}
     · cases h
     · cases h; exact Or.inl rfl
 
+theorem newOK_mkField {G : List Grid} {s s' : State K} {cls : Cls} {g : Nat}
+    {dt : Option DType} {cplx : Bool} {init : Init K}
+    (h : mkField G s cls g dt cplx init = .ok s') : NewOK G s s' := by
+  simp only [mkField] at h
+  split at h
+  · cases h
+  rename_i gr hgr
+  split at h
+  · cases h
+  split at h <;> cases h <;>
+    exact newOK_allocObj s _ _ _ rfl (Or.inr ⟨gr, hgr, by simp⟩)
+
+theorem newOK_componentAt {G : List Grid} {s s' : State K} (hi : Inv G s) {hd : Nat} {o : Obj}
+    (ho : s.objs[hd]? = some o) {c : Nat} (h : componentAt s o c = .ok s') : NewOK G s s' := by
+  unfold componentAt at h
+  split at h
+  · rename_i hcond
+    cases h
+    simp only [Bool.and_eq_true, decide_eq_true_eq, Bool.or_eq_true, beq_iff_eq] at hcond
+    refine newOK_pushObj s _ rfl ?_
+    rcases hi.shaped hd o ho with hr | ⟨g, h1, h2⟩
+    · rcases hcond.1 with e | e <;> rw [e] at hr <;> cases hr
+    · refine Or.inr ⟨g, h1, ?_⟩
+      simp only [compObj, Nat.one_mul]
+      rw [h2, Nat.mul_div_cancel_left _ (by omega : 0 < o.ncomp)]
+  · cases h
+
 /-- the objects created by any operation are well shaped -/
 theorem newOK_step (G : List Grid) {s s' : State K} (hi : Inv G s) {op : Op K}
     (h : step G s op = .ok s') : NewOK G s s' := by
   cases op with
   | mkField cls g dt cplx init =>
-    simp only [step, mkField] at h
-    split at h
-    · cases h
-    rename_i gr hgr
-    split at h
-    · cases h
-    split at h <;> cases h <;>
-      exact newOK_allocObj s _ _ _ rfl (Or.inr ⟨gr, hgr, by simp⟩)
+    simp only [step] at h
+    exact newOK_mkField h
   | writeData hd vals =>
     simp only [step] at h
     split at h
@@ -1471,16 +1600,16 @@ theorem newOK_step (G : List Grid) {s s' : State K} (hi : Inv G s) {op : Op K}
     split at h
     · cases h
     rename_i o ho
+    exact newOK_componentAt hi (getObj_ok ho) h
+  | tcomponent hd i j =>
+    simp only [step] at h
     split at h
-    · rename_i hcond
-      cases h
-      simp only [Bool.and_eq_true, decide_eq_true_eq, Bool.or_eq_true, beq_iff_eq] at hcond
-      refine newOK_pushObj s _ rfl ?_
-      rcases hi.shaped hd o (getObj_ok ho) with hr | ⟨g, h1, h2⟩
-      · rcases hcond.1 with e | e <;> rw [e] at hr <;> cases hr
-      · refine Or.inr ⟨g, h1, ?_⟩
-        simp only [compObj, Nat.one_mul]
-        rw [h2, Nat.mul_div_cancel_left _ (by omega : 0 < o.ncomp)]
+    · cases h
+    rename_i o ho
+    split at h
+    · cases h
+    split at h
+    · exact newOK_componentAt hi (getObj_ok ho) h
     · cases h
   | mkColl hs cp dt =>
     simp only [step] at h
@@ -1523,7 +1652,7 @@ theorem newOK_step (G : List Grid) {s s' : State K} (hi : Inv G s) {op : Op K}
       rcases hi.shaped hd o (getObj_ok ho) with hr | ⟨g, h1, h2⟩
       · exact Or.inl hr
       · exact Or.inr ⟨g, h1, by
-          rw [Store.length_readView _ _ (hi.wf hd o (getObj_ok ho)).2]; exact h2⟩
+          rw [length_castCells, Store.length_readView _ _ (hi.wf hd o (getObj_ok ho)).2]; exact h2⟩
   | neg hd =>
     simp only [step, negate] at h
     split at h
@@ -1587,6 +1716,332 @@ theorem newOK_step (G : List Grid) {s s' : State K} (hi : Inv G s) {op : Op K}
       split at h
       · cases h
       exact newOK_copyThenWrite hi (getObj_ok hot) h
+  | applyOperator hd ghosts outCls out vals =>
+    simp only [step] at h
+    split at h
+    · cases h
+    rename_i o ho
+    split at h
+    · cases h
+    have e1 := eff_writeSel hi.wf o.view (fun p => !validSel G o p) (fun p old =>
+      match ghosts[p]? with | some (some x) => some x | _ => old)
+    split at h
+    · have n2 := newOK_mkField h
+      obtain ⟨e2, _⟩ := eff_mkField e1.wf h
+      exact NewOK.trans (s₁ := s.writeSel o.view (fun p => !validSel G o p) (fun p old =>
+        match ghosts[p]? with | some (some x) => some x | _ => old)) (NewOK.none rfl) e2 n2
+    · split at h
+      · cases h
+      split at h
+      · cases h
+      split at h
+      · cases h
+      cases h; exact NewOK.none rfl
+  | derive hd cls cplx vals =>
+    simp only [step] at h
+    split at h
+    · cases h
+    split at h
+    · cases h
+    exact newOK_mkField h
+  | applyFn hd out vals =>
+    simp only [step] at h
+    split at h
+    · cases h
+    rename_i o ho
+    split at h
+    · cases h
+    split at h
+    · exact newOK_copyThenWrite hi (getObj_ok ho) h
+    · split at h
+      · cases h
+      split at h
+      · cases h
+      split at h
+      · cases h
+      cases h; exact NewOK.none rfl
+
+/-! ### `data` is a live view of the padded array (clause (a) of C15)
+
+The code keeps the array returned by `field.data` in an attribute of its own (`_data_valid`);
+the model records from which array it was carved (`State.dviews`).  `DataLive`: for every object
+that array is the object's current padded array.  Every primitive that creates an object or gives
+it another array (`pushObj`, `allocObj`, `relink` = the setter of `_data_full`, base.py:147-176)
+sets both, so the invariant holds after every operation. -/
+
+def DataLive (s : State K) : Prop := s.dviews = s.objs.map (·.view)
+
+theorem dataLive_empty : DataLive ({} : State K) := rfl
+
+theorem dataLive_pushObj {s : State K} (h : DataLive s) (o : Obj) : DataLive (s.pushObj o) := by
+  unfold DataLive at *; simp [State.pushObj, h]
+
+theorem dataLive_allocObj {s : State K} (h : DataLive s) (cells : List (Option K)) (dt : DType)
+    (o : Obj) : DataLive (s.allocObj cells dt o) := by
+  unfold DataLive at *; simp [State.allocObj, h]
+
+theorem dataLive_relink {s : State K} (h : DataLive s) (m : Nat) (v : View) :
+    DataLive (s.relink m v) := by
+  unfold DataLive at *
+  simp only [State.relink, h]
+  apply List.ext_getElem?
+  intro i
+  simp only [List.getElem?_modify, List.getElem?_map]
+  by_cases him : m = i
+  · subst him; cases s.objs[m]? <;> simp
+  · simp [him]
+
+theorem dataLive_writeSel {s : State K} (h : DataLive s) (v : View) (sel : Nat → Bool)
+    (g : Nat → Option K → Option K) : DataLive (s.writeSel v sel g) := h
+
+theorem dataLive_mapEach (mk : Store K → Obj → List (Option K) × DType) :
+    ∀ (os : List Obj) (s : State K), DataLive s → DataLive (mapEach mk s os).1
+  | [], _, h => h
+  | o :: os, s, h => by
+    simp only [mapEach]
+    exact dataLive_mapEach mk os _ (dataLive_allocObj h _ _ _)
+
+theorem dataLive_relinkAll (b : Nat) : ∀ (ms ls : List Nat) (s : State K) (off : Nat),
+    DataLive s → DataLive (relinkAll s b ms ls off)
+  | [], _, _, _, h => by simpa [relinkAll] using h
+  | _ :: _, [], _, _, h => by simpa [relinkAll] using h
+  | m :: ms, l :: ls, s, off, h => by
+    simp only [relinkAll]
+    exact dataLive_relinkAll b ms ls _ _ (dataLive_relink h _ _)
+
+theorem dataLive_linkFrom {s s' : State K} (h : DataLive s) {ms : List Nat} {g : Nat}
+    {src : Option (View × DType)} {dt : Option DType} (hs : linkFrom s ms g src dt = .ok s') :
+    DataLive s' := by
+  unfold linkFrom at hs
+  split at hs
+  · cases hs
+  split at hs
+  · cases hs
+  split at hs
+  · cases hs
+  split at hs
+  · cases hs
+  simp only at hs
+  split at hs
+  · cases hs
+  cases hs
+  exact dataLive_relinkAll _ _ _ _ _ (dataLive_allocObj h _ _ _)
+
+theorem dataLive_mkColl {s s' : State K} (h : DataLive s) {hs : List Nat} {cp : Bool}
+    {dt : Option DType} (e : mkColl s hs cp dt = .ok s') : DataLive s' := by
+  unfold mkColl at e
+  split at e
+  · cases e
+  · cases e
+  · simp only at e
+    split at e
+    · cases e
+    split at e
+    · cases e
+    split at e
+    · cases e
+    split at e
+    · exact dataLive_linkFrom (dataLive_mapEach _ _ _ h) e
+    · exact dataLive_linkFrom h e
+
+theorem dataLive_copyAny {s s' : State K} (h : DataLive s) {o : Obj} {dt : Option DType}
+    (e : copyAny s o dt = .ok s') : DataLive s' := by
+  unfold copyAny at e
+  split at e
+  · cases e
+  · unfold copyColl at e
+    split at e
+    · cases e
+    · exact dataLive_linkFrom (dataLive_mapEach _ _ _ h) e
+  · cases e; exact dataLive_allocObj h _ _ _
+
+theorem dataLive_copyThenWrite {G : List Grid} {s s' : State K} (h : DataLive s) {src : Obj}
+    {dt : Option DType} {g : State K → Obj → Nat → Option K → Option K}
+    (e : copyThenWrite G s src dt g = .ok s') : DataLive s' := by
+  unfold copyThenWrite at e
+  split at e
+  · cases e
+  rename_i s1 hc
+  split at e
+  · cases e
+  cases e
+  exact dataLive_writeSel (dataLive_copyAny h hc) _ _ _
+
+theorem dataLive_mkField {G : List Grid} {s s' : State K} (h : DataLive s) {cls : Cls} {g : Nat}
+    {dt : Option DType} {cplx : Bool} {init : Init K}
+    (e : mkField G s cls g dt cplx init = .ok s') : DataLive s' := by
+  simp only [mkField] at e
+  split at e
+  · cases e
+  split at e
+  · cases e
+  split at e <;> cases e <;> exact dataLive_allocObj h _ _ _
+
+theorem dataLive_componentAt {s s' : State K} (h : DataLive s) {o : Obj} {c : Nat}
+    (e : componentAt s o c = .ok s') : DataLive s' := by
+  unfold componentAt at e
+  split at e
+  · cases e; exact dataLive_pushObj h _
+  · cases e
+
+/-- **clause (a), one step**: every operation keeps `data` linked to the padded array -/
+theorem dataLive_step (G : List Grid) {s s' : State K} (h : DataLive s) {op : Op K}
+    (e : step G s op = .ok s') : DataLive s' := by
+  cases op with
+  | mkField cls g dt cplx init => simp only [step] at e; exact dataLive_mkField h e
+  | writeData hd vals =>
+    simp only [step] at e
+    split at e
+    · cases e
+    cases e; exact dataLive_writeSel h _ _ _
+  | writeFull hd vals =>
+    simp only [step] at e
+    split at e
+    · cases e
+    cases e; exact dataLive_writeSel h _ _ _
+  | writeCell hd p v =>
+    simp only [step] at e
+    split at e
+    · cases e
+    cases e; exact dataLive_writeSel h _ _ _
+  | setGhosts hd vals =>
+    simp only [step] at e
+    split at e
+    · cases e
+    cases e; exact dataLive_writeSel h _ _ _
+  | component hd c =>
+    simp only [step] at e
+    split at e
+    · cases e
+    exact dataLive_componentAt h e
+  | tcomponent hd i j =>
+    simp only [step] at e
+    split at e
+    · cases e
+    split at e
+    · cases e
+    split at e
+    · exact dataLive_componentAt h e
+    · cases e
+  | mkColl hs cp dt => simp only [step] at e; exact dataLive_mkColl h e
+  | slice c idx =>
+    simp only [step] at e
+    split at e
+    · cases e
+    split at e
+    · exact dataLive_mkColl h e
+    · cases e
+  | append c hs =>
+    simp only [step] at e
+    split at e
+    · cases e
+    · cases e
+    · split at e
+      · exact dataLive_mkColl h e
+      · cases e
+  | copy hd dt =>
+    simp only [step] at e
+    split at e
+    · cases e
+    exact dataLive_copyAny h e
+  | deepcopy hd =>
+    simp only [step, deepcopy] at e
+    split at e
+    · cases e
+    split at e
+    · cases e
+    split at e
+    · split at e
+      · cases e
+      · exact dataLive_linkFrom (dataLive_mapEach _ _ _ h) e
+    · cases e; exact dataLive_allocObj h _ _ _
+  | neg hd =>
+    simp only [step, negate] at e
+    split at e
+    · cases e
+    split at e
+    · cases e
+    split at e
+    · split at e
+      · cases e
+      · exact dataLive_linkFrom (dataLive_mapEach _ _ _ h) e
+    · cases e; exact dataLive_allocObj h _ _ _
+  | binop bop a b =>
+    simp only [step, binop] at e
+    split at e
+    · cases e
+    split at e
+    · cases e
+    split at e
+    · split at e
+      · cases e
+      exact dataLive_copyThenWrite h e
+    · split at e
+      · cases e
+      split at e
+      · cases e
+      split at e
+      · cases e
+      split at e
+      · cases e
+      split at e
+      · cases e
+      exact dataLive_copyThenWrite h e
+  | inplace bop a b =>
+    obtain ⟨oa, g, _, rfl⟩ := inplace_eq' e
+    exact dataLive_writeSel h _ _ _
+  | storeFrame hd into =>
+    simp only [step] at e
+    split at e
+    · cases e
+    split at e
+    · cases e
+    cases e; exact dataLive_allocObj h _ _ _
+  | loadFrame t f =>
+    simp only [step] at e
+    split at e
+    · cases e
+    · cases e
+    · split at e
+      · cases e
+      exact dataLive_copyThenWrite h e
+  | applyOperator hd ghosts outCls out vals =>
+    simp only [step] at e
+    split at e
+    · cases e
+    split at e
+    · cases e
+    split at e
+    · exact dataLive_mkField (dataLive_writeSel h _ _ _) e
+    · split at e
+      · cases e
+      split at e
+      · cases e
+      split at e
+      · cases e
+      cases e; exact dataLive_writeSel (dataLive_writeSel h _ _ _) _ _ _
+  | derive hd cls cplx vals =>
+    simp only [step] at e
+    split at e
+    · cases e
+    split at e
+    · cases e
+    exact dataLive_mkField h e
+  | applyFn hd out vals =>
+    simp only [step] at e
+    split at e
+    · cases e
+    split at e
+    · cases e
+    split at e
+    · exact dataLive_copyThenWrite h e
+    · split at e
+      · cases e
+      split at e
+      · cases e
+      split at e
+      · cases e
+      cases e; exact dataLive_writeSel h _ _ _
 
 /-- **the invariant is preserved by every operation** -/
 theorem inv_step (G : List Grid) {s s' : State K} (hi : Inv G s) {op : Op K}
